@@ -246,6 +246,17 @@ func genASCII(rng *rand.Rand) string {
 	}
 }
 
+// genRuns: delimiters that begin with a repeated character ("  [", "==>") next to runs of that character, so that the
+// first occurrence of a delimiter overlaps a failed partial occurrence one byte earlier
+func genRuns(rng *rand.Rand) string {
+	lvl := pickS(rng, []string{"WARN", "info", "Err", "", "x "})
+	if rng.Intn(12) == 0 {
+		return lvl + " [w1] a=>b"
+	}
+	return lvl + strings.Repeat(" ", 2+rng.Intn(3)) + "[" + pickS(rng, []string{"w1", "W 2", "", "[t]"}) + "] " +
+		pickS(rng, []string{"a", "", "k=v", "= ="}) + strings.Repeat("=", 2+rng.Intn(3)) + ">" + pickS(rng, []string{"retry", "", "=>x", " ==> y"})
+}
+
 func genGreedy(rng *rand.Rand) string {
 	const al = "GETab "
 	b := make([]byte, rng.Intn(10))
@@ -297,6 +308,11 @@ var profiles = []*profile{
 		Tpls: [][]part{join(num(0), key("tag"), key("verb"), key("code"), key("skip"), num(3), num(4), key("@")), join(key("src"), key("line"), num(2))}},
 	{Kind: "dissect", Expr: `n%{n} get %{path} %{}`, IC: true, gen: genASCII, ascii: true,
 		Tpls: [][]part{join(num(0), key("n"), key("path"), num(1), num(2), num(3), key("@"))}},
+	// delimiters with a repeated first character, case-sensitive and -I (the two search loops must find the FIRST occurrence)
+	{Kind: "dissect", Expr: `%{lvl}  [%{thr}] %{a}==>%{b}`, gen: genRuns, ascii: true,
+		Tpls: [][]part{join(num(0), key("lvl"), key("thr"), key("a"), key("b"), key("@"))}},
+	{Kind: "dissect", Expr: `%{lvl}  [%{thr}] %{a}==>%{b}`, IC: true, gen: genRuns, ascii: true,
+		Tpls: [][]part{join(num(0), key("lvl"), key("thr"), key("a"), key("b"), key("@"))}},
 	{Kind: "dissect", Expr: `%{all}`, gen: genASCII, ascii: true,
 		Tpls: [][]part{join(key("all"), num(0), num(1))}},
 	// the default matcher
